@@ -724,6 +724,24 @@ def case_database(p):
         df = _diff(wantn, got)
         if df:
             out.append(("database:numbers-or-broadcast-key-differ-after-restart", {**p, "diff": df}))
+        # ---- BLE: the state number follows the accessory's advertisements while running (growing, rolling over 65535 -> 1, restarting low after a
+        # reset); whatever was advertised last is what a restarted controller reads back
+        if p["transport"] == "ble" and not out:
+            from aiohomekit.controller.ble.manufacturer_data import HomeKitAdvertisement
+
+            base = sn if isinstance(sn, int) else 0
+            seq = [min(65535, base + 1), min(65535, base + 7), 65535, 1, 2, 40000, 3, 3]
+            try:
+                for k, x in enumerate(seq):
+                    p1._async_description_update(HomeKitAdvertisement.from_cache(pdata.get("AccessoryAddress", "00:11:22:33:44:55"), pdata["AccessoryPairingID"].lower(), cn, x))
+                    c3 = _controller(CharacteristicCacheFile(cpath2))
+                    c3.load_data(fname)
+                    got_sn = c3.aliases[alias].state_num
+                    if got_sn != x:
+                        out.append(("database:advertised-state-number-not-read-back-after-restart", {**p, "advertised_in_order": seq[: k + 1], "read_back": got_sn}))
+                        break
+            except Exception as e:  # noqa: BLE001
+                out.append((f"database:state-number-update-raises:{type(e).__name__}", {**p, "err": str(e)[:200]}))
     return out
 
 
